@@ -301,6 +301,8 @@ type scenario struct {
 	jitterUs   int
 	wire       int // > 0: run over the real kafka.Transport against this many byte-level brokers
 	moves      []leaderMove
+	writeTO    time.Duration            // > 0: Writer.WriteTimeout
+	stallAt    int                      // wire: the broker stops reading in the middle of the n-th produce request to arrive (special "stallwrite")
 	linger     time.Duration            // > 0: timed run — the trace carries clock ticks and the model's linger bound (BatchTimeout + slack) applies
 	trickle    time.Duration            // > 0 (with one caller): pause between the calls of a caller
 	sinkDelay  map[string]time.Duration // event key ("PW.NewBatch", "PW.Detach:timer", "Q.Get:batch", "B.TimerFire") -> stall inside that critical section
@@ -743,6 +745,28 @@ func (b *builder) tombstones(i int) *scenario {
 	return sc
 }
 
+// stallWrite: over the real Transport; the broker stops reading in the middle of one produce request for longer than
+// WriteTimeout.  The attempt must be cut off at the socket: the Writer retries on a fresh connection and goes on with the
+// next batches, and when the stalled connection is drained again nothing more may arrive on it — otherwise a stale copy
+// of the earlier batch is appended after later ones.
+func (b *builder) stallWrite(i int) *scenario {
+	r := b.r
+	sc := &scenario{name: "stallw" + strconv.Itoa(i), bs: 1 + i%2, bb: 1 << 20, ma: 4, async: false, compl: i%2 == 0, wtopic: "t",
+		timeout: 2 * time.Millisecond, nparts: map[string]int{"t": 1}, faults: map[tpKey][]fault{}, closeAt: -1,
+		wire: 1 + i%2, special: "stallwrite", stallAt: 1 + i%3, writeTO: time.Duration(25+5*(i%3)) * time.Millisecond}
+	var calls []callSpec
+	for j := 0; j < 3+r.Intn(3); j++ {
+		b.nextC++
+		cs := callSpec{id: b.nextC}
+		for k := 0; k < sc.bs; k++ {
+			cs.msgs = append(cs.msgs, b.mkMsg(60+r.Intn(200), "", 0, false))
+		}
+		calls = append(calls, cs)
+	}
+	sc.callers = [][]callSpec{calls}
+	return sc
+}
+
 // tinyTimeout: BatchTimeout of microseconds with BatchSize 2 and odd message counts, while every batch creation is
 // stalled inside the partition mutex: the linger timer of a batch expires while writeMessages fills and queues it and
 // opens the next batch, so the timer branch of awaitBatch runs for a batch that is no longer attached
@@ -986,6 +1010,10 @@ func run(sc *scenario, out *bufio.Writer) {
 		tr := &kafka.Transport{Dial: wc.Dial, MetadataTTL: 2 * time.Millisecond, IdleTimeout: time.Second, DialTimeout: time.Second}
 		w.Transport, w.Addr = tr, wc.bootAddr()
 		w.WriteBackoffMin, w.WriteBackoffMax = 2*time.Millisecond, 6*time.Millisecond
+		wc.stallAt = sc.stallAt
+		if sc.writeTO > 0 {
+			w.WriteTimeout = sc.writeTO
+		}
 		defer func() {
 			tr.CloseIdleConnections()
 			wc.close()
@@ -1277,6 +1305,19 @@ func run(sc *scenario, out *bufio.Writer) {
 		waitTimeout(&wg, 6*time.Second) // all later (async) calls are queued behind the held batch
 		time.Sleep(2 * sc.timeout)
 		f.open("p1")
+	case sc.special == "stallwrite":
+		// the broker stops reading in the middle of a produce request; the Writer gives the attempt up at WriteTimeout,
+		// retries on another connection and goes on; only then does the stalled connection get drained again
+		select {
+		case <-wc.stalled:
+		case <-time.After(3 * time.Second):
+		}
+		waitTimeout(&wg, 6*time.Second)
+		close(wc.stallGate)
+		select {
+		case <-wc.stallDone:
+		case <-time.After(2 * time.Second):
+		}
 	case sc.special == "ctxhold":
 		f.waitReached("p1") // the first batch of the call to be cancelled is at the broker (held)
 		waitEventArg("W.Return", 1, "ctx", 2*time.Second)
@@ -1615,6 +1656,9 @@ func main() {
 	}
 	for i := 0; i < 8*extra && failedScenarios < 3; i++ {
 		run(b.tombstones(i), out)
+	}
+	for i := 0; i < 3+extra && failedScenarios < 3; i++ {
+		run(b.stallWrite(i), out)
 	}
 	for i := 0; i < 3+extra && failedScenarios < 3; i++ {
 		run(b.trickleFamily(i), out)
